@@ -1,9 +1,9 @@
 package tgen
 
 import (
-	"bytes"
-	"context"
 	"fmt"
+	"html"
+	"sort"
 	"strconv"
 	"strings"
 
@@ -19,10 +19,16 @@ type Args struct {
 	At     int // index into AttrSets
 }
 
+func strp(s string) *string { return &s }
+func boolp(b bool) *bool    { return &b }
+
+// AttrSets must stay identical to attrSets in probe.mainSrc (the compiled probe uses the same values).
 var AttrSets = []templ.Attributes{
 	{},
 	{"data-a": "1", "hidden": true, "skip": false},
 	{"title": `q"<&'`, "p": (*string)(nil), "kv": templ.KV("v", true), "kb": templ.KV(true, false)},
+	{"a1": templ.KV(false, true), "a2": templ.KV(true, true), "a3": templ.KV(false, false), "a4": templ.KV("x<y", false), "a5": templ.KV("", true)},
+	{"b1": boolp(true), "b2": boolp(false), "b3": (*bool)(nil), "b4": strp("s&t"), "b5": func() bool { return true }, "b6": func() bool { return false }, "b7": 42},
 }
 
 func errStr(s string) (string, bool) {
@@ -53,6 +59,14 @@ func StrVal(x string, a Args, loopX *string) (v string, ok bool, known bool) {
 		return fmt.Sprint(len(a.Xs)), true, true
 	case `"é" + s0`:
 		return "é" + a.S0, true, true
+	case `"😀" + s1`:
+		return "😀" + a.S1, true, true
+	case `s0 + s1`:
+		return a.S0 + a.S1, true, true
+	case `"é" + s1`:
+		return "é" + a.S1, true, true
+	case `"😀" + s1 `:
+		return "😀" + a.S1, true, true
 	case "templ.URL(s0)":
 		return string(templ.URL(a.S0)), true, true
 	case "templ.URL(s1)":
@@ -129,10 +143,46 @@ func StyleVal(x string, a Args) (string, bool) {
 	return s, true
 }
 
+// SpreadVal is an INDEPENDENT oracle of what a spread attribute map denotes (it does not call templ.RenderAttributes):
+// keys in sorted order; a string value gives key="value"; a boolean gives the bare key iff true; nil pointers and
+// unsupported values give nothing; KV(string, bool) gives key="string" iff the bool; KV(bool, bool) the bare key iff both.
 func SpreadVal(a Args) string {
-	var b bytes.Buffer
-	_ = templ.RenderAttributes(context.Background(), &b, AttrSets[a.At])
-	return b.String()
+	m := AttrSets[a.At]
+	var keys []string
+	for k := range m {
+		keys = append(keys, k)
+	}
+	sort.Strings(keys)
+	var sb strings.Builder
+	pair := func(k, v string) { sb.WriteString(" " + html.EscapeString(k) + "=\"" + html.EscapeString(v) + "\"") }
+	bare := func(k string, on bool) {
+		if on {
+			sb.WriteString(" " + html.EscapeString(k))
+		}
+	}
+	for _, k := range keys {
+		switch v := m[k].(type) {
+		case string:
+			pair(k, v)
+		case *string:
+			if v != nil {
+				pair(k, *v)
+			}
+		case bool:
+			bare(k, v)
+		case *bool:
+			bare(k, v != nil && *v)
+		case templ.KeyValue[string, bool]:
+			if v.Value {
+				pair(k, v.Key)
+			}
+		case templ.KeyValue[bool, bool]:
+			bare(k, v.Key && v.Value)
+		case func() bool:
+			bare(k, v())
+		}
+	}
+	return sb.String()
 }
 
 // ScriptVal: the runtime's encoding of a Go value placed in a <script> element.
@@ -177,7 +227,7 @@ func SwitchIndex(caseExprs []string, a Args) int {
 
 var StrPool = []string{"", "a", "a<b", "x&y", `"q"`, "it's", "</div>", " sp ", "é\x00ü", "<script>alert(1)</script>", "ERR", "javascript:alert(1)", "a0", "b1", "<2", "color:blue;x:y", "\xff\xfe"}
 
-var StrExprs = []string{"s0", "s1", `"lit"`, `s0 + "-" + s1`, "errStr(s1)", "errStr(s0)", `fmt.Sprint(len(xs))`, `"é" + s0`, "templ.URL(s0)", "templ.URL(s1)", `templ.URL("/p?" + s0)`}
+var StrExprs = []string{`"😀" + s1`, `s0 + s1`, `"é" + s1`, "s0", "s1", `"lit"`, `s0 + "-" + s1`, "errStr(s1)", "errStr(s0)", `fmt.Sprint(len(xs))`, `"é" + s0`, "templ.URL(s0)", "templ.URL(s1)", `templ.URL("/p?" + s0)`}
 var LoopStrExprs = []string{"x", `x + "!"`}
 var BoolExprs = []string{"b0", "b1", "!b0", "b0 && b1", "len(xs) > 1", `s0 == "a"`, "b0 || b1"}
 var ClassExprs = []string{`"k1", templ.KV("k2", b0)`, "s0", `templ.Classes("a", s1)`, `"z"`}
